@@ -8,9 +8,12 @@
    code's own comparison float64(|c|) <= m.  C01_bound_exact_below_2p53 and
    C01_cap_is_rounded_product turn this into the integer inequality
    |c| <= floor(RN(f * D)) for every cap below 2^53 ns (104 days per round).
-   Hypotheses that appear: impact factors finite (a NaN factor passes all
-   start-up comparisons: boundary observation); the clause "both contribute =>
-   bounded by the peer cap" needs the peer cap below 2^62 ns, and
+   Non-finite factors: a NaN factor (and every infinite one except a peer
+   factor +Inf) is refused at start-up (C01_nan_factor_refused,
+   C01_infinite_factor_refused; the code tests !(x > y) since /repo 6abb997);
+   no theorem about Run assumes finite factors.  Hypotheses that appear: the
+   clause "both contribute => bounded by the peer cap" needs the peer cap below
+   2^62 ns, and
    C01_midpoint_refuted_beyond_2p62 shows that this is necessary. *)
 From ST Require Import Base.Ints Base.F64 Base.Sorting Model.NtpTime Model.Units Model.Ftm Model.Sync Proofs.SyncProofs Proofs.SyncDriftProofs.
 From Coq Require Import ZArith List Reals.
@@ -31,15 +34,36 @@ Print Assumptions C01_run_oracle.
 (* Start-up: Run refuses exactly the inadmissible settings (and a clock that
    reports no positive drift); when it starts, the two caps are impact x
    Drift(interval), positive, and the reference cap does not exceed the peer cap. *)
-Theorem C01_startup_refusal : forall cfg D,
-  is_finite (c_ref cfg) = true -> is_finite (c_peer cfg) = true -> in_i64 (c_interval cfg) -> in_i64 D ->
+Theorem C01_startup_refusal : forall cfg D, in_i64 (c_interval cfg) -> in_i64 D ->
   ((exists code nd, prologue cfg D = Refuse code nd) <-> (inadmissible cfg = true \/ D <= 0)) /\
   (forall rm pm, prologue cfg D = Start rm pm ->
      rm = cap (c_ref cfg) D /\ pm = cap (c_peer cfg) D /\ cap_ok rm /\ cap_ok pm /\ fle rm pm = true).
 Proof. exact startup_refusal. Qed.
 Print Assumptions C01_startup_refusal.
 
-(* what "inadmissible" means in real numbers: a factor <= 1, peer factor - 1 (rounded) <= reference factor,
+(* a NaN impact factor (either one) is inadmissible and refused before anything else happens: Run panics
+   without a single call of the clock or of the discipline, whatever the other settings, the clock and the sources *)
+Theorem C01_nan_factor_refused : forall cfg D nref npeer rs,
+  fis_nan (c_ref cfg) = true \/ fis_nan (c_peer cfg) = true ->
+  inadmissible cfg = true /\ run cfg D nref npeer rs = (true, []).
+Proof. exact nan_factor_refused. Qed.
+Print Assumptions C01_nan_factor_refused.
+
+(* infinite factors: a non-finite reference factor and a peer factor -Inf are inadmissible as well; the one
+   non-finite setting that is admitted is a peer factor +Inf, whose cap is +Inf (peer side unbounded by
+   configuration, reference side bounded by a finite factor) *)
+Theorem C01_infinite_factor_refused : forall cfg,
+  is_finite (c_ref cfg) = false \/ c_peer cfg = B754_infinity true -> inadmissible cfg = true.
+Proof. exact inf_inadmissible. Qed.
+Print Assumptions C01_infinite_factor_refused.
+
+Theorem C01_admissible_factors : forall cfg, inadmissible cfg = false ->
+  (is_finite (c_ref cfg) = true /\ (1 < B2R (c_ref cfg))%R) /\
+  (c_peer cfg = B754_infinity false \/ (is_finite (c_peer cfg) = true /\ (1 < B2R (c_peer cfg))%R)).
+Proof. exact admissible_factors. Qed.
+Print Assumptions C01_admissible_factors.
+
+(* what "inadmissible" means in real numbers for finite factors: a factor <= 1, peer factor - 1 (rounded) <= reference factor,
    interval <= 0, timeout < 0 or above half the interval *)
 Theorem C01_inadmissible_means : forall cfg, is_finite (c_ref cfg) = true -> is_finite (c_peer cfg) = true ->
   (inadmissible cfg = true <->
@@ -55,8 +79,7 @@ Proof. exact gap_refused. Qed.
 Print Assumptions C01_gap_refused_exact.
 
 (* refused runs hand nothing to the clock discipline: the only events are the Drift queries *)
-Theorem C01_refused_hands_on_nothing : forall cfg D nref npeer rs,
-  is_finite (c_ref cfg) = true -> is_finite (c_peer cfg) = true -> in_i64 (c_interval cfg) -> in_i64 D ->
+Theorem C01_refused_hands_on_nothing : forall cfg D nref npeer rs, in_i64 (c_interval cfg) -> in_i64 D ->
   inadmissible cfg = true \/ D <= 0 ->
   exists nd, run cfg D nref npeer rs = (true, repeat (EDrift (c_interval cfg) D) nd).
 Proof. exact run_refused. Qed.
@@ -66,8 +89,7 @@ Print Assumptions C01_refused_hands_on_nothing.
    every history rs, the run is Drift, Drift, then exactly one (Do c; Sleep interval) per round, and every
    c is bounded: 0 without sources, within the reference cap with reference clocks only, within the peer
    cap with peers only, and within the peer cap with both (peer cap below 2^62 ns). *)
-Theorem C01_one_bounded_correction_per_round : forall cfg D nref npeer rs,
-  is_finite (c_ref cfg) = true -> is_finite (c_peer cfg) = true -> in_i64 (c_interval cfg) -> in_i64 D ->
+Theorem C01_one_bounded_correction_per_round : forall cfg D nref npeer rs, in_i64 (c_interval cfg) -> in_i64 D ->
   inadmissible cfg = false -> 0 < D ->
   exists evs,
     run cfg D nref npeer rs = (false, EDrift (c_interval cfg) D :: EDrift (c_interval cfg) D :: evs) /\
@@ -128,7 +150,7 @@ Proof. exact cap_real. Qed.
 Print Assumptions C01_cap_is_rounded_product.
 
 (* for admissible factors the reference cap never exceeds the peer cap *)
-Theorem C01_caps_ordered : forall cfg D, is_finite (c_ref cfg) = true -> is_finite (c_peer cfg) = true ->
+Theorem C01_caps_ordered : forall cfg D,
   inadmissible cfg = false -> in_i64 D -> 0 < D -> fle (cap (c_ref cfg) D) (cap (c_peer cfg) D) = true.
 Proof. exact caps_ordered. Qed.
 Print Assumptions C01_caps_ordered.
